@@ -195,18 +195,34 @@ func (c *ctx) detail(ix *index, extra map[string]interface{}) map[string]interfa
 	return m
 }
 
-// classify explains a wrong .ecx/.sdx after marking the entries at positions ms (in order) deleted
-// starting from prev: is it exactly what writing the tombstone at m*NeedleHeaderSize (instead of
-// m*NeedleMapEntrySize) gives?
-func classifyMisplaced(prev, actual []byte, ms []int) string {
+// classifyMisplaced explains a wrong .ecx/.sdx after the keys ks were marked deleted one after the
+// other starting from prev: is the file exactly what the real procedure gives when the only deviation
+// is that the tombstone of the entry found at position m is written at m*NeedleHeaderSize (instead of
+// m*NeedleMapEntrySize)? The search runs on the simulated bytes, as the real one runs on the file it
+// is damaging.
+func classifyMisplaced(prev, actual []byte, ks []uint64) string {
+	if types.NeedleHeaderSize == E {
+		return "other"
+	}
 	sim := append([]byte{}, prev...)
-	for _, m := range ms {
-		p := m*types.NeedleHeaderSize + sizeAt
-		if p+4 <= len(sim) {
-			copy(sim[p:p+4], []byte{0xff, 0xff, 0xff, 0xff})
+	for _, k := range ks {
+		l, h := 0, len(sim)/E
+		for l < h {
+			m := (l + h) / 2
+			key := binary.BigEndian.Uint64(sim[m*E : m*E+8])
+			if key == k {
+				p := m*types.NeedleHeaderSize + sizeAt
+				copy(sim[p:p+4], []byte{0xff, 0xff, 0xff, 0xff})
+				break
+			}
+			if key < k {
+				l = m + 1
+			} else {
+				h = m
+			}
 		}
 	}
-	if bytes.Equal(sim, actual) && types.NeedleHeaderSize != E {
+	if bytes.Equal(sim, actual) {
 		return "stride-NeedleHeaderSize"
 	}
 	return "other"
@@ -364,7 +380,9 @@ func (c *ctx) ecCase(ix *index, full bool) {
 	}
 	for si, st := range steps {
 		k := st.K
-		r.Case(map[string]interface{}{"build": build, "index": ix.I, "step": si, "key": k, "kind": st.Kind})
+		if si%32 == 0 { // crash attribution: the index (regenerated from its number) and roughly where
+			r.Case(map[string]interface{}{"build": build, "index": ix.I, "step": si, "key": k, "kind": st.Kind})
+		}
 		err := ev.DeleteNeedleFromEcx(types.NeedleId(k))
 		requested[k] = true
 		r.Eval(1)
@@ -383,7 +401,7 @@ func (c *ctx) ecCase(ix *index, full bool) {
 		if !bytes.Equal(got, want) {
 			shift := "other"
 			if p >= 0 {
-				shift = classifyMisplaced(prev, got, []int{p})
+				shift = classifyMisplaced(prev, got, []uint64{k})
 			}
 			pos := "first-entry"
 			if p > 0 {
@@ -428,13 +446,13 @@ func (c *ctx) ecCase(ix *index, full bool) {
 		if p >= 0 && p+1 < len(ix.Keys) {
 			ok = findCheck(ix.Keys[p+1], k) && ok
 		}
-		if full || len(ix.Keys) <= 40 || si%(1+len(steps)/8) == 0 || si == len(steps)-1 {
+		if full || len(ix.Keys) <= 24 || si%(1+len(steps)/4) == 0 || si == len(steps)-1 {
 			for _, o := range ix.Keys {
 				ok = findCheck(o, k) && ok
 			}
 			r.Count("full_find_sweeps", 1)
 		} else {
-			for j := 0; j < 6; j++ {
+			for j := 0; j < 3; j++ {
 				ok = findCheck(ix.Keys[rng.Intn(len(ix.Keys))], k) && ok
 			}
 		}
@@ -494,13 +512,7 @@ func (c *ctx) ecCase(ix *index, full bool) {
 		r.Eval(1)
 		r.Count("rebuild_checks", 1)
 		if !bytes.Equal(got, final) {
-			var ms []int
-			for _, jk := range js {
-				if p := ix.pos(jk); p >= 0 {
-					ms = append(ms, p)
-				}
-			}
-			r.Violation(c.sig(lib.Sig{"op": "ecx-rebuild", "class": "tombstone-misplaced", "shift": classifyMisplaced(orig, got, ms), "via": "RebuildEcxFile"}),
+			r.Violation(c.sig(lib.Sig{"op": "ecx-rebuild", "class": "tombstone-misplaced", "shift": classifyMisplaced(orig, got, js), "via": "RebuildEcxFile"}),
 				c.detail(ix, map[string]interface{}{"journal_entries": len(js), "diff_at": diffPositions(got, final), "msg": ".ecx rebuilt from the unmarked .ecx plus the journal differs from the .ecx the deletions should have produced"}))
 		}
 		if _, err := os.Stat(b2 + ".ecj"); err == nil && len(js) > 0 {
@@ -641,7 +653,7 @@ func (c *ctx) sortedMapCase(ix *index) {
 			if !bytes.Equal(gotSdx, wantSdx) {
 				shift := "other"
 				if p >= 0 {
-					shift = classifyMisplaced(sdxPrev, gotSdx, []int{p})
+					shift = classifyMisplaced(sdxPrev, gotSdx, []uint64{k})
 				}
 				if r.Violation(c.sig(lib.Sig{"op": "sorted-map-delete", "class": "tombstone-misplaced", "shift": shift, "via": "SortedFileNeedleMap.Delete", "key": kind}),
 					c.detail(ix, map[string]interface{}{"key": k, "entry_index": p, "diff_at": diffPositions(gotSdx, wantSdx)})) {
